@@ -28,6 +28,25 @@ class Obj2(object):
         return 'Obj2(%s)' % ', '.join('%s=%r' % kv for kv in sorted(self.__dict__.items()))
 
 
+class CheapCopy(object):
+    """A service object with its own copy protocol: copies made through the copy module share the (big) payload list, as a handle
+    to an immutable-by-convention buffer would. The serializer rebuilds it from its state like any other object."""
+
+    def __init__(self, **kw):
+        self.__dict__.update(kw)
+
+    def __copy__(self):
+        c = CheapCopy()
+        c.__dict__.update(self.__dict__)
+        return c
+
+    def __deepcopy__(self, memo):
+        return self.__copy__()
+
+    def __repr__(self):
+        return 'CheapCopy(%s)' % ', '.join('%s=%r' % kv for kv in sorted(self.__dict__.items()))
+
+
 class HostileEq(object):
     """A service value whose == is not a plain bool (array-like: element-wise comparison, ambiguous truth value)."""
 
@@ -171,8 +190,13 @@ def recording_in_domain(data, md):
 
 
 def fresh(v):
-    """Harness-side deep copy that does not go through playback or jsonpickle."""
-    return copy.deepcopy(v)
+    """Harness-side deep copy that does not go through playback or jsonpickle (and does not honour CheapCopy's own copy protocol)."""
+    saved = CheapCopy.__deepcopy__
+    try:
+        del CheapCopy.__deepcopy__
+        return copy.deepcopy(v)
+    finally:
+        CheapCopy.__deepcopy__ = saved
 
 
 # ------------------------------------------------------------------------------------------------------
@@ -290,6 +314,11 @@ class Gen(object):
         for _ in range(50):
             v = self.value(depth, sharing)
             if mutable_ids(v):
+                if self.rng.random() < 0.12:
+                    # somewhere inside: an object with a copy protocol of its own (copy.copy / copy.deepcopy share its payload)
+                    v = [v, CheapCopy(payload=[1, 2, 3], name='buffer')] if self.rng.random() < 0.5 else {'wrapped': CheapCopy(payload=[v], name='w')}
+                    if not in_domain(v):
+                        continue
                 return v
         return [1, {'a': [2]}]
 
